@@ -123,3 +123,17 @@ uint64_t drv_vss_strarr(uint8_t *packed, char **strs, const uint16_t *lens, int 
     for (i = 0; i < n; i++) h = (h ^ out[i].data_length) * 1099511628211ULL;
     return h;
 }
+
+/* pack only: the descriptor's length field holds `stale_len` when the call is made (it is an output); returns data_length << 16 | count */
+uint64_t drv_vss_strarr_pack(uint8_t *packed, char **strs, const uint16_t *lens, int n, uint16_t stale_len) {
+    VssDataString_t in[48];
+    VssDataString_t *inp[48];
+    VssDataStringArray_t arr;
+    int i;
+    if (n > 48) n = 48;
+    for (i = 0; i < n; i++) { in[i].data_length = lens[i]; in[i].data = strs[i]; inp[i] = &in[i]; }
+    arr.data_length = stale_len;
+    arr.data = packed;
+    Avtp_Vss_SerializeStringArray(&arr, inp, (uint16_t)n);
+    return ((uint64_t)arr.data_length << 16) | Avtp_Vss_GetVSSDataStringArrayLength(&arr);
+}
